@@ -157,7 +157,7 @@ def check_try_get(ctx, f, key, b, values):
     false_edges = []
     for c in eqs:
         v = const_string(c.args[1]) if peel(c.args[0]) == P(2) else (const_string(c.args[0]) if peel(c.args[1]) == P(2) else None)
-        be = b.bool_edges(c.target)
+        be = b.branch_on_call(c)
         if v is None or not be or be[0] != c.result_term():
             got["?%d" % c.bb] = None
             continue
